@@ -215,11 +215,41 @@ def rule_narrowpred(ctx):
         ctx.bad(rid, "setting-reaches-context", "the force_wide_buffers setting of JxlImageBuilder is not what is passed to the render context", fn=f)
 
 
+def rule_narrow_saturate(ctx):
+    """narrow (i16) sample arithmetic may wrap - the wide path wraps the same way modulo 2^16 - but must not saturate"""
+    from ..facts import callee, pos_line
+    rid = "R-NARROW-SATURATE"
+    ctx.rule(rid, "in the sample-processing crates (jxl-modular, jxl-render, jxl-oxide) no i16 value is combined with a saturating_* "
+                  "operation: an intermediate that leaves the i16 range is clipped on the narrow path while the i32 path carries the "
+                  "exact value, so the two buffer widths give different samples although every coded sample fits in 16 bits "
+                  "(wrapping_* operations are consistent modulo 2^16 and are accepted; widening to i32 first is the other accepted form)")
+    n = 0
+    for f in ctx.prog.all_fns(["jxl_modular", "jxl_render", "jxl_oxide"]):
+        if f.kind == "Promoted":
+            continue
+        for b, t in f.calls():
+            c = callee(t)
+            if not c or "<impl i16>::" not in c["fn"]:
+                continue
+            m = c["fn"].split("::")[-1]
+            if m.startswith(("wrapping_", "saturating_", "overflowing_", "checked_")):
+                n += 1
+            if m.startswith("saturating_"):
+                ctx.seen(f)
+                ctx.bad(rid, "i16-saturating:%s|%s" % (f.path, m), "%s combines 16-bit samples with %s: a sum that leaves the i16 range is clipped "
+                        "here but exact on the 32-bit buffer path" % (f.path, m), fn=f, pos=t[-2])
+    ctx.count(rid + ".i16-explicit-overflow-ops", n)
+    ctx.floor(rid + ".i16-explicit-overflow-ops", 4)
+    if not any(v["rule"] == rid for v in ctx.violations):
+        ctx.ok(rid, "no-i16-saturation", "%d explicit-overflow operations on i16, none saturating" % n, nontrivial=True)
+
+
 def main(pid, tier, repo=None):
     ctx = Ctx(pid, tier, configs=("workspace",), repo=repo)
     rule_narrowpred(ctx)
     rule_buffer_sibling(ctx)
     rule_sample_sibling(ctx)
+    rule_narrow_saturate(ctx)
     ctx.not_decided("sample-for-sample equality of the two decodes; the arithmetic of the i16 SIMD squeeze kernels against the scalar code "
                     "(head/tail handling per width class); that 16-bit intermediates never overflow for depths up to 12 bits")
     return ctx.finish(
